@@ -60,7 +60,9 @@ template <class Mat> void check_rows(Case &c, const std::string &nm, const Mat &
     c.check(ok, nm + ":row-iteration", "row iteration over the adapter does not reproduce the source row (columns, values, order, length)", J().n("row", badrow));
 }
 // conversion into the internal CRS (what every amgcl constructor does with a user matrix)
-template <class Mat> void check_convert(Case &c, const std::string &nm, const Mat &M, const Csr<double> &A) {
+template <class Mat> void check_convert(Case &c, const std::string &nm0, const Mat &M, const Csr<double> &A) {
+    // zero_copy<...> all return crs<double>: the conversion is then the crs copy constructor, one key for all index-type variants
+    const std::string nm = nm0.compare(0, 10, "zero_copy<") == 0 ? std::string("zero_copy") : nm0;
     backend::crs<double> C(M);
     bool ok = C.nrows == A.n && C.ncols == A.m && C.nnz == A.nnz() && C.ptr && (ptrdiff_t)C.ptr[0] == 0;
     for (size_t i = 0; ok && i < A.n; ++i) ok = C.ptr[i + 1] == A.ptr[i + 1];
@@ -228,7 +230,7 @@ static void sub_zerocopy() {
         // user arrays (heap, owned by the harness) and reference copies
         std::vector<ptrdiff_t> ptr = A.ptr, col = A.col; std::vector<double> val = A.val;
         const std::vector<ptrdiff_t> ptr0 = ptr, col0 = col; const std::vector<double> val0 = val;
-        auto unchanged = [&](const std::string &nm) { c.check(ptr == ptr0 && col == col0 && memcmp(val.data(), val0.data(), val.size() * sizeof(double)) == 0, nm + ":user-arrays-modified", "zero-copy adapter (or an object built on it) modified the user arrays"); };
+        auto unchanged = [&](const std::string &nm) { c.check(ptr == ptr0 && col == col0 && (val.empty() || memcmp(val.data(), val0.data(), val.size() * sizeof(double)) == 0), nm + ":user-arrays-modified", "zero-copy adapter (or an object built on it) modified the user arrays"); };
         try {
             { auto Z = adapter::zero_copy(n, m, ptr.data(), col.data(), val.data());
               c.check(arrays_identical(*Z, ptr.data(), col.data(), val.data()), "zero_copy:pointer-identity", "zero_copy does not alias the user arrays");
